@@ -73,6 +73,7 @@ OBLIGATIONS = {
     "near_pole_point": "a point with |lat| = 89.9 was converted",
     "negative_height": "a point below the ellipsoid was converted",
     "point_is_base": "the base's own local coordinates were checked",
+    "base_object_reused": "one base object (Geo and ECEF form) was handed to several conversions and checked to still denote the base afterwards",
     "southern_base": "a base in the southern hemisphere was used",
     "l93_anchor": "the Lambert-93 false origin was checked",
 }
@@ -223,12 +224,15 @@ def check_point(case, ctx):
             ctx.violation("toENUCoords/base-not-at-origin", sub, {"enu_of_base": r})
             return
         ctx.oblige("point_is_base")
+        # one base object per case and form, handed to every conversion below (as a caller would): a conversion that
+        # modified the base it is given would make the later ones wrong
+        Bs, B2s = mk_base(b, form), mk_base(b2, form)
         # -- Geo -> ENU -> Geo ------------------------------------------------------------------
         def rt_geo():
-            enu = GeoCoords(*p).toENUCoords(mk_base(b, form))
+            enu = GeoCoords(*p).toENUCoords(Bs)
             if not isinstance(enu, ENUCoords):
                 raise TypeError("toENUCoords returned %s" % type(enu).__name__)
-            back = enu.toGeoCoords(mk_base(b, form))
+            back = enu.toGeoCoords(Bs)
             return _xyz(enu), _xyz(back)
         st, r = guard(rt_geo)
         if st != "ok":
@@ -241,8 +245,8 @@ def check_point(case, ctx):
         # -- ECEF -> ENU -> ECEF -> Geo ---------------------------------------------------------
         def rt_ecef():
             e = ECEFCoords(*ref_ecef(*p))
-            enu = e.toENUCoords(mk_base(b, form))
-            e2 = enu.toECEFCoords(mk_base(b, form))
+            enu = e.toENUCoords(Bs)
+            e2 = enu.toECEFCoords(Bs)
             return _xyz(e2), _xyz(e2.toGeoCoords())
         st, r = guard(rt_ecef)
         if st != "ok":
@@ -254,9 +258,9 @@ def check_point(case, ctx):
             return
         # -- ENU(b) -> ENU(b2) -> Geo -----------------------------------------------------------
         def rebase():
-            enu = GeoCoords(*p).toENUCoords(mk_base(b, form))
-            enu2 = enu.toENUCoords(mk_base(b, form), mk_base(b2, form))
-            return _xyz(enu2), _xyz(enu2.toGeoCoords(mk_base(b2, form)))
+            enu = GeoCoords(*p).toENUCoords(Bs)
+            enu2 = enu.toENUCoords(Bs, B2s)
+            return _xyz(enu2), _xyz(enu2.toGeoCoords(B2s))
         st, r = guard(rebase)
         if st != "ok":
             ctx.violation("ENUCoords.toENUCoords/" + ("does-not-return" if st == "hang" else "raises"), sub, r)
@@ -265,6 +269,17 @@ def check_point(case, ctx):
             ctx.violation("ENUCoords.toENUCoords/rebase-round-trip-exceeds-tolerance", sub,
                           {"back": r[1], "err": geo_err(r[1], p)})
             return
+        # -- the base objects, after having been used as bases, still denote b and b2 ----------------
+        def origin_after():
+            return _xyz(GeoCoords(*b).toENUCoords(Bs)), _xyz(GeoCoords(*b2).toENUCoords(B2s))
+        st, r = guard(origin_after)
+        if st != "ok":
+            ctx.violation("toENUCoords/" + ("does-not-return" if st == "hang" else "raises"), sub, r)
+            return
+        if not all(abs(c) <= tol0 for c in r[0]) or not all(abs(c) <= tol0 for c in r[1]):
+            ctx.violation("toENUCoords/base-not-at-origin-after-use-as-base", sub, {"enu_of_bases": r})
+            return
+        ctx.oblige("base_object_reused")
     ctx.outcome(("pt", case["b"], p[1] > 0, p[2] > 0))
 
 
